@@ -52,6 +52,8 @@ explicit paths; anything on (state, name) pairs where sh / shutil.which / the re
 (e.g. a lone empty $PATH)."""
 
 import contextlib
+import ctypes
+import errno
 import io
 import json
 import os
@@ -68,7 +70,21 @@ BASE_T = 1_500_000_000
 NAMES = ("x", "y")
 LOOKUPS = ("x", "y", "./x", "d1/x", "{R}/d1/x")
 SPAWN_LOOKUPS = ("x", "./x", "d1/x")  # the real-spawn view (12 ms each) is limited to one name per class
-KIND_NAMES = {"E": "exe", "N": "nonexec", "D": "dir", "LE": "link-exe", "LX": "link-dangling", "LD": "link-dir"}
+KIND_NAMES = {
+    "E": "exe",
+    "N": "nonexec",
+    "D": "dir",
+    "LE": "link-exe",
+    "LX": "link-dangling",
+    "LD": "link-dir",
+    # regular files that HAVE execute mode bits, but not for this process (DAC capabilities dropped)
+    "FO": "foreign-owner-only-x",  # uid/gid 65534, mode 0700
+    "FG": "foreign-group-only-x",  # uid/gid 65534, mode 0070
+    "OX": "own-file-owner-lacks-x",  # ours, mode 0655: group/other may execute, the owner (us) may not
+}
+FOREIGN = 65534
+FILE_MODES = {"E": (0o755, None), "N": (0o644, None), "FO": (0o700, FOREIGN), "FG": (0o070, FOREIGN), "OX": (0o655, None)}
+NOT_FOR_US = ("FO", "FG", "OX")
 SEL_VIEWS = ("locate-executable", "cache-locate", "spec")
 BOOL_VIEWS = ("cache-contains", "cache-iter")
 CACHE_VIEWS = ("cache-locate", "cache-contains", "cache-iter")
@@ -101,21 +117,23 @@ ALPHA = {
         "inplace": (["path.append", D2], ["path.remove", D1]),
         "cd": ("w", "d1"),
         "scan": (("d1", "x"), ("d2", "x")),
+        "fault": ("d1",),
     },
     # quick tier (a subset of "mid")
     "quick": {
         "dirs": ("d1", "d2", "w"),
-        "kinds": {("d1", "x"): ALL_KINDS, ("d2", "x"): "E N D LE LX", ("w", "x"): "E N", ("d1", "y"): "E"},
+        "kinds": {("d1", "x"): ALL_KINDS + " FO", ("d2", "x"): "E N D LE LX", ("w", "x"): "E N", ("d1", "y"): "E"},
         "paths": (0, 1, 2, 5, 6, 7, 8, 9),
         "inplace": (["path.append", D2], ["path.insert0", D2], ["path.remove", D1]),
         "cd": ("w", "R"),
         "scan": (("d1", "x"), ("d2", "x"), ("d1", "y")),
+        "fault": ("d1",),
     },
     "mid": {
         "dirs": ("d1", "d2", "w"),
         "kinds": {
-            ("d1", "x"): ALL_KINDS,
-            ("d2", "x"): ALL_KINDS,
+            ("d1", "x"): ALL_KINDS + " FO OX",
+            ("d2", "x"): ALL_KINDS + " FO",
             ("w", "x"): "E N",
             ("d1", "y"): "E",
             ("d2", "y"): "E",
@@ -125,11 +143,13 @@ ALPHA = {
         "inplace": (["path.append", D2], ["path.insert0", D2], ["path.remove", D1]),
         "cd": ("w", "R", "d1"),
         "scan": (("d1", "x"), ("d2", "x"), ("w", "x"), ("d1", "y")),
+        "fault": ("d1", "d2"),
     },
     "full": {
         "dirs": ("d1", "d2", "d3", "w"),
         "kinds": {
-            **{(d, "x"): ALL_KINDS for d in ("d1", "d2", "d3", "w")},
+            **{(d, "x"): ALL_KINDS + " FO FG OX" for d in ("d1", "d2")},
+            **{(d, "x"): ALL_KINDS + " FO" for d in ("d3", "w")},
             ("d1", "y"): "E N D",
             ("d2", "y"): "E N D",
             ("d3", "y"): "E",
@@ -147,6 +167,7 @@ ALPHA = {
         ),
         "cd": ("w", "R", "d1", "d2"),
         "scan": (("d1", "x"), ("d2", "x"), ("d3", "x"), ("w", "x"), ("d1", "y"), ("d2", "y")),
+        "fault": ("d1", "d2", "w"),
     },
 }
 ALL_DIRS = ("d1", "d2", "d3", "w")
@@ -154,6 +175,34 @@ MAX_PATH_LEN = 4
 
 _ACTIVE = None  # the harness the wrapped directory-listing seam reports to
 _MEMO_DIR = None  # shared (across worker processes) store of reference cross-checks, set by run()
+
+
+def _drop_dac_from_bounding_set():
+    """prctl(PR_CAPBSET_DROP) for CAP_DAC_OVERRIDE / CAP_DAC_READ_SEARCH: a root child would otherwise
+    regain them at execve and /bin/sh would execute files this process may not."""
+    if os.geteuid() != 0:
+        return True
+    try:
+        libc = ctypes.CDLL(None, use_errno=True)
+        return all(libc.prctl(24, c, 0, 0, 0) == 0 for c in (caps.CAP_DAC_OVERRIDE, caps.CAP_DAC_READ_SEARCH))
+    except Exception:  # noqa: BLE001
+        return False
+
+
+class _OsShim:
+    """`os` as xonsh.commands_cache sees it: everything is the real module, except that scandir asks
+    the active harness first whether this scan is the one that fails."""
+
+    def __init__(self, real):
+        self._real = real
+
+    def __getattr__(self, name):
+        return getattr(self._real, name)
+
+    def scandir(self, path="."):
+        if _ACTIVE is not None:
+            _ACTIVE._scandir_fault(path)
+        return self._real.scandir(path)
 
 
 def evkind(ev):
@@ -168,6 +217,8 @@ def evkind(ev):
         return "cd"
     if k == "during-scan":
         return f"during-scan({evkind(ev[1])})"
+    if k == "scan-fault":
+        return "scan-fault"
     return {"path=": "path-assign", "path.append": "path-append", "path.insert0": "path-insert", "path.remove": "path-remove"}[k]
 
 
@@ -193,6 +244,9 @@ class Harness:
         self.cfg = ALPHA[level]
         self.root = os.path.realpath(common.scratch_dir("c08"))
         self.R = os.path.join(self.root, "R")
+        # children (the /bin/sh reference, spawned commands) must not get the DAC capabilities back at
+        # execve: drop them from the bounding set first, then from this process
+        self.bset_ok = _drop_dac_from_bounding_set()
         self.caps_ok = caps.drop_dac_caps()
         self._mk_tree()
         os.chdir(self.p("w"))
@@ -214,6 +268,8 @@ class Harness:
         self.CommandsCache, self.locate_executable, self.SubprocSpec, self.XonshError = CommandsCache, locate_executable, SubprocSpec, XonshError
         self._install_scan_seam()
         self._armed = None  # file-system event to perform right after the next listing of its directory
+        self._fault = None  # directory whose next scan fails once with EMFILE
+        self.fault_fired = 0
         self._plain_scan = set()  # history indices whose during-scan event is moved out of the refresh (repair transform)
         self._memo = {}
         self._pre = (None, None)
@@ -221,7 +277,7 @@ class Harness:
         self.hist = []
         self.clock = 0
         self.scan_fired = 0
-        self._scan_n = [0, 0]
+        self._scan_n = [0, 0, 0, 0]
         self.m_path = []
         self.m_cwd = "w"
 
@@ -251,6 +307,15 @@ class Harness:
         shutil.copyfile(self.template, probe)
         os.chmod(probe, 0o644)
         self.caps_ok = self.caps_ok and not os.access(probe, os.X_OK) and caps.permissions_bind(self.p("t"))
+        # "has x bits, but not for us": needs bits that bind and a chown to another uid
+        self.foreign_ok = False
+        if self.caps_ok:
+            try:
+                os.chmod(probe, 0o700)
+                os.chown(probe, FOREIGN, FOREIGN)
+                self.foreign_ok = not os.access(probe, os.X_OK) and FOREIGN not in os.getgroups() + [os.getuid(), os.getgid()]
+            except OSError:
+                self.foreign_ok = False
         self.dirids = {}
         for d in ALL_DIRS + ("t",):
             st = os.stat(self.p(d))
@@ -275,12 +340,14 @@ class Harness:
 
             executables_in._c08_seam = True
             ccmod.executables_in = executables_in
+            ccmod.os = _OsShim(ccmod.os)  # os.scandir as the cache module sees it (transient scan faults)
         _ACTIVE = self
 
-    def _count_scan(self, fired):
-        """Measured evidence: checked during-scan transitions / those whose event really landed mid-refresh."""
-        self._scan_n[0] += 1
-        self._scan_n[1] += 1 if fired else 0
+    def _count_scan(self, fired, fault=False):
+        """Measured evidence: checked during-scan (scan-fault) transitions / those whose event (fault) really landed mid-refresh."""
+        o = 2 if fault else 0
+        self._scan_n[o] += 1
+        self._scan_n[o + 1] += 1 if fired else 0
         if _MEMO_DIR:
             with open(os.path.join(_MEMO_DIR, f"scan.{os.getpid()}.cnt"), "w") as f:
                 json.dump(self._scan_n, f)
@@ -291,6 +358,13 @@ class Harness:
             self._armed = None
             self._do_fs(ev)
             self.scan_fired += 1
+
+    def _scandir_fault(self, path):
+        """Called by the os shim of xonsh.commands_cache before every os.scandir there."""
+        if self._fault is not None and self._dirkey(path) == self._dirkey(self.p(self._fault)):
+            self._fault = None
+            self.fault_fired += 1
+            raise OSError(errno.EMFILE, os.strerror(errno.EMFILE), str(path))
 
     def cc(self):
         return self.xsh.commands_cache
@@ -320,6 +394,7 @@ class Harness:
         self.hist = []
         self._stash = None
         self._armed = None
+        self._fault = None
         self._lookup()
 
     def _settle(self, ev):
@@ -331,6 +406,11 @@ class Harness:
             if self._armed is not None:  # its directory was not listed: the event simply happens now
                 e, self._armed = self._armed, None
                 self._do_fs(e)
+            self._lookup()
+        elif ev[0] == "scan-fault":
+            # the lookup above is the one the fault hit (it may raise or answer "not found", not
+            # judged); the fault is gone now and the next lookup is an ordinary one
+            self._fault = None
             self._lookup()
 
     def _lookup(self):
@@ -346,9 +426,12 @@ class Harness:
         if k == "mk":
             d, n, kind = ev[1], ev[2], ev[3]
             path = self.p(d, n)
-            if kind in ("E", "N"):
+            if kind in FILE_MODES:
+                mode, owner = FILE_MODES[kind]
                 shutil.copyfile(self.template, path)
-                os.chmod(path, 0o755 if kind == "E" else 0o644)
+                os.chmod(path, mode)
+                if owner is not None:
+                    os.chown(path, owner, owner)
             elif kind == "D":
                 os.mkdir(path)
             else:
@@ -380,6 +463,10 @@ class Harness:
                 self._do_fs(ev[1])
             else:
                 self._armed = ev[1]
+        elif k == "scan-fault":
+            # the directory changed (so the next refresh re-lists it) and that one scan fails transiently
+            self._touch(ev[1])
+            self._fault = ev[1]
         elif k == "path=":
             self.m_path = list(ev[1])
             env["PATH"] = [self.sub(t) for t in ev[1]]
@@ -417,7 +504,12 @@ class Harness:
             return "LD" if S.S_ISDIR(t.st_mode) else ("LE" if t.st_mode & 0o111 else "LN")
         if S.S_ISDIR(st.st_mode):
             return "D"
-        return "E" if st.st_mode & 0o111 else "N"
+        mode = st.st_mode & 0o777
+        owner = None if st.st_uid == os.getuid() else st.st_uid
+        for k, v in FILE_MODES.items():
+            if v == (mode, owner):
+                return k
+        return f"F{mode:o}:{st.st_uid}"
 
     def fs_state(self):
         out = {}
@@ -453,6 +545,8 @@ class Harness:
             cur = fs[d].get(n)
             if cur is None:
                 for k in kinds.split():
+                    if k in NOT_FOR_US and not self.foreign_ok:
+                        continue  # permission bits do not bind here (recorded in the evidence)
                     out.append(["mk", d, n, k])
             else:
                 out.append(["rm", d, n])
@@ -474,6 +568,9 @@ class Harness:
                     out.append(["during-scan", ["chmod", d, n, "+x"]])
                 elif cur == "E":
                     out.append(["during-scan", ["chmod", d, n, "-x"]])
+        for d in cfg.get("fault", ()):
+            if self._dirkey(self.p(d)) in on_path:
+                out.append(["scan-fault", d])
         for i in cfg["paths"]:
             if PATHS[i] != self.m_path:
                 out.append(["path=", list(PATHS[i])])
@@ -693,6 +790,8 @@ class Harness:
         if sel is None:
             return "nothing"
         what = KIND_NAMES.get(sel["kind"], sel["kind"] or "absent")
+        if sel["kind"] in NOT_FOR_US or str(sel["kind"]).startswith("F"):
+            what = "nonexec"  # a regular file this process may not execute, whatever its mode bits say
         if "/" in name:
             named = self._sel(os.path.join(os.getcwd(), self.sub(name)))
             where = "the-named-path" if named and named["dk"] == sel["dk"] and named["entry"] == sel["entry"] else "another-path"
@@ -710,10 +809,10 @@ class Harness:
         self.reset()
         for j, e in enumerate(hist):
             self.apply(e)
-            if j == i and e[0] != "during-scan":
+            if j == i and e[0] not in ("during-scan", "scan-fault"):
                 self.xsh.commands_cache = self.CommandsCache(self.xsh.env, self.xsh.aliases)
             self._settle(e)
-            if j == i and e[0] == "during-scan":  # "after the event" = after the refresh it interrupted
+            if j == i and e[0] in ("during-scan", "scan-fault"):  # "after the event" = after the refresh it hit
                 self.xsh.commands_cache = self.CommandsCache(self.xsh.env, self.xsh.aliases)
                 self._lookup()
         return self._cmp(view, name, self.view(view, name), self.expected(name)) is None
@@ -822,11 +921,13 @@ class Harness:
         else:
             pre = {k: v["sig"] for k, v in self.mismatches().items()}
             self._pre = (hk, pre)
-        f0 = self.scan_fired
+        f0, g0 = self.scan_fired, self.fault_fired
         self.apply(ev)
         self._settle(ev)
         if ev[0] == "during-scan":
             self._count_scan(self.scan_fired - f0)
+        elif ev[0] == "scan-fault":
+            self._count_scan(self.fault_fired - g0, fault=True)
         viols = []
         envp = [self.rel(x) for x in self.xsh.env["PATH"]]
         if envp != self.m_path:
@@ -902,17 +1003,18 @@ def _phase(ctx, level, d0, dmax, deadline):
                 os.unlink(os.path.join(_MEMO_DIR, fn))
         t = time.time()
         r = seqx.bfs(_factory, d, ctx, budget_s=None, chunk=2)
-        r["scan"] = [0, 0]
+        r["scan"] = [0, 0, 0, 0]
         for fn in os.listdir(_MEMO_DIR):
             if fn.startswith("scan."):
                 with open(os.path.join(_MEMO_DIR, fn)) as f:
-                    a, b = json.load(f)
-                r["scan"] = [r["scan"][0] + a, r["scan"][1] + b]
+                    got = json.load(f)
+                r["scan"] = [x + y for x, y in zip(r["scan"], got)]
         dt = max(time.time() - t, 1e-3)
         h = seqx._H
         h.reset()
         r["alphabet"] = len(h.menu())
         r["caps_ok"] = h.caps_ok
+        r["foreign_ok"] = h.foreign_ok and h.bset_ok
         best = r
         if d == dmax or not r["level_sizes"] or r["level_sizes"][-1] == 0:
             break
@@ -958,6 +1060,8 @@ def run(ctx):
             ctx.sample({"alphabet": ph["level"], "history": s})
     for s in amb_samples[:2]:
         ctx.sample({"ambiguous_state_skipped": s})
+    if not all(ph["foreign_ok"] for ph in phases):
+        ctx.assumptions.append("capset / PR_CAPBSET_DROP / chown refused: the file kinds 'has execute bits, but not for this process' (foreign owner 0700/0070, own file 0655) were NOT explored or are counted as ambiguous")
     if not all(ph["caps_ok"] for ph in phases):
         ctx.assumptions.append("capset refused: permission bits may not bind in this run")
     ctx.coverage.update(
@@ -972,6 +1076,9 @@ def run(ctx):
         phases=[{k: ph[k] for k in ("level", "alphabet", "depth_requested", "depth_completed", "states", "transitions", "level_sizes", "capped")} for ph in phases],
         during_scan_transitions=sum(ph["scan"][0] for ph in phases),
         during_scan_events_landed_mid_refresh=sum(ph["scan"][1] for ph in phases),
+        scan_fault_transitions=sum(ph["scan"][2] for ph in phases),
+        scan_faults_raised_inside_a_refresh=sum(ph["scan"][3] for ph in phases),
+        not_executable_for_us_kinds_explored=all(ph["foreign_ok"] for ph in phases),
         lookups_per_state=len(LOOKUPS),
         views_per_lookup=len(SEL_VIEWS) + len(BOOL_VIEWS),
         distinct_fs_path_cwd_states_all_phases=n_states,
